@@ -161,6 +161,8 @@ def build(X):
 INPUTS = {
     "exclusion_arg": ["from t\nderive x = (std.not {a} {b})\n", "from t\nselect (std.not {a} {b})\n", "from t\nselect !{a}\n", "from t\nselect (std.not {a} bogus:1)\n"],
     "literal_column_name": ["from [{1, 2}]\n", "from [{a = 1, 2}]\n", "from [{a = 1, b = 2}]\n", "from t\nappend [{1}]\n"],
+    # NOT a function of this unit: the `unwrap()` of sql::gen_expr::translate_cid (a column id that no relation of the query declares) - executed only; a finding of the unchanged tree
+    "translate_cid": ["from a\njoin (from b | select {x+1, y+1, z}) (a.k == z)\n"],
     "wildcard_self": ["from t\nselect {`*`}\n", "from `*`\n", "from t\nfilter `*` > 1\n", "from t\nselect {t.*}\n", "from t\nselect {x.*}\n"],
 }
 
